@@ -9,7 +9,15 @@
      ZEXPFIX lan lad -> l (exponent of the fixed 0.e<l> branch)    GMPCAP bits -> n   OUTDIGIT precout             -> n          PRECDIGITS precf -> n       PRECOF digits -> n
      LAYOUT fmt who               -> kinds, e.g. "Z F F R R"   (who = zero | none | real | imag | ...)
      LINES zero outside n o_0..o_{n-1} c_0..c_{n-1}     -> printed indices (-1 for a zero root)
-     COUNT zero outside c_0 ...   -> in out uncertain *)
+     COUNT zero outside c_0 ...   -> in out uncertain
+   DPE printing path (OutFmt/DpeModel.v); doubles travel as the 16 hex digits of their IEEE bits; the model's two libm
+   parameters flog10 / fpow10 are THIS machine's log10 and pow (10.0, .) (OCaml's log10 and ( ** ) call libm's):
+     DL mbits esp                 -> dbits TAB l TAB lgbits TAB frbits TAB text('x') TAB text('e') TAB units (|printed mantissa| in units of 1e-14)
+                                     (get_dl, the log10 and the fraction handed to pow, rdpe_out_str, rdpe_out_str_u, f14_units)
+     MPFRDPE num den              -> mbits esp      (mpf_get_rdpe)
+     GNU num den                  -> text           (gnuplot_component)
+     ZEXP num den                 -> text           (zero_text (zero_exp_code ..))
+     RN53 num den                 -> bits           MAXDIG fmt lgn lgd precf precout -> n *)
 module BZ = Z
 open Outfmt
 let rec pos_of_z (n : BZ.t) : positive =
@@ -27,9 +35,58 @@ let fmt_of = function "c" -> Compact | "b" -> Bare | "v" -> Verbose | "f" -> Ful
 let who_of = function "zero" -> None | "none" -> Some ANone | "real" -> Some AReal | "notreal" -> Some ANotReal | "imag" -> Some AImag
   | "notimag" -> Some ANotImag | "notrealimag" -> Some ANotRealImag | _ -> failwith "who"
 let incl_of_s = function "0" -> IncUnknown | "1" -> IncIn | "2" -> IncOut | _ -> failwith "incl"
-let kind = function FLitZero -> "Z" | FRe true -> "RE" | FRe false -> "REu" | FIm true -> "IM" | FIm false -> "IMu" | FRad -> "R" | FUndef -> "U"
+let kind = function FLitZero -> "Z" | FRe true -> "RE" | FRe false -> "REu" | FIm true -> "IM" | FIm false -> "IMu" | FRad -> "R"
+(* ---- doubles <-> the extracted rationals (exact both ways; hand written I/O, zarith) *)
+let q_of_float (f : float) : q =
+  if f = 0.0 then { qnum = Z0; qden = XH }
+  else begin
+    if Float.is_nan f || Float.is_integer f && Float.abs f = Float.infinity then failwith "nan/inf";
+    let (m, e) = Float.frexp f in                 (* f = m * 2^e, 0.5 <= |m| < 1 *)
+    let n = BZ.of_float (Float.ldexp m 53) and e = e - 53 in     (* f = n * 2^e, n an integer *)
+    if e >= 0 then { qnum = z_of_z (BZ.shift_left n e); qden = XH }
+    else { qnum = z_of_z n; qden = pos_of_z (BZ.shift_left BZ.one (- e)) }
+  end
+let float_of_q (x : q) : float =
+  let n = bz_of_z x.qnum and d = bz_of_pos x.qden in
+  if BZ.sign n = 0 then 0.0 else begin
+    let g = BZ.gcd n d in
+    let n = BZ.div n g and d = BZ.div d g in
+    let k = BZ.trailing_zeros n in
+    let n' = BZ.shift_right n k in
+    if BZ.numbits n' > 53 then failwith "not a double (mantissa)";
+    if BZ.equal d BZ.one then Float.ldexp (BZ.to_float n') k
+    else begin
+      let kd = BZ.trailing_zeros d in
+      if not (BZ.equal (BZ.shift_right d kd) BZ.one) then failwith "not a double (denominator)";
+      Float.ldexp (BZ.to_float n') (k - kd)
+    end
+  end
+let bits_of_float f = Printf.sprintf "%016Lx" (Int64.bits_of_float f)
+let float_of_bits s = Int64.float_of_bits (Int64.of_string ("0x" ^ s))
+let flog10 (x : q) : q = q_of_float (Float.log10 (float_of_q x))
+let fpow10 (x : q) : q = q_of_float (Float.pow 10.0 (float_of_q x))
 let answer l =
   match String.split_on_char '\t' l with
+  | ["DL"; mb; esp] ->
+    let m = q_of_float (float_of_bits mb) and e = zs esp in
+    let (d, l) = get_dl flog10 fpow10 m e in
+    (* the libm values the model consumed, for the check's reference comparison: recomputed the way dl_pos does *)
+    let am = if BZ.sign (bz_of_z m.qnum) < 0 then { m with qnum = z_of_z (BZ.neg (bz_of_z m.qnum)) } else m in
+    let lg = if BZ.sign (bz_of_z m.qnum) = 0 then 0.0 else Float.log10 (float_of_q am) in
+    let frs = (if BZ.sign (bz_of_z m.qnum) = 0 then "-" else
+                 (* fraction = the argument whose pow is |d|: recovered from the model by a recording wrapper *)
+                 let cell = ref 0.0 in
+                 let fp x = cell := float_of_q x; fpow10 x in
+                 ignore (get_dl flog10 fp m e); bits_of_float !cell) in
+    String.concat "\t" [bits_of_float (float_of_q d); BZ.to_string (bz_of_z l); bits_of_float lg; frs;
+                        rdpe_out_str flog10 fpow10 m e; rdpe_out_str_u flog10 fpow10 m e;
+                        BZ.to_string (bz_of_z (f14_units d))]
+  | ["MPFRDPE"; n; d] ->
+    let (m, e) = mpf_get_rdpe (q_of n d) in bits_of_float (float_of_q m) ^ " " ^ BZ.to_string (bz_of_z e)
+  | ["GNU"; n; d] -> gnuplot_component flog10 fpow10 (q_of n d)
+  | ["ZEXP"; n; d] -> zero_text (zero_exp_code flog10 fpow10 (q_of n d))
+  | ["RN53"; n; d] -> bits_of_float (float_of_q (rn53 (q_of n d)))
+  | ["MAXDIG"; f; a; b; pf; po] -> BZ.to_string (bz_of_z (max_digits (fmt_of f) (q_of a b) (zs pf) (zs po)))
   | ["PARSE"; s] ->
     (match decimal_parse s with
      | None -> "NONE"
